@@ -140,7 +140,7 @@ pub fn run_bfs<S: System + 'static>(sys: S, a: &Args) -> ! {
 pub fn run_family<S: System + 'static>(sys: S, a: &Args, hists: Vec<Vec<String>>) -> ! {
     let sys: &'static S = Box::leak(Box::new(sys));
     register(sys, a);
-    let rep = engine::run_histories(sys, &hists, a.num("threads", 16) as usize);
+    let rep = engine::run_histories(sys, &hists, a.num("threads", 16) as usize, a.num("inject", 0) > 0);
     finish(rep, a)
 }
 
